@@ -29,10 +29,10 @@ type evSeen struct {
 }
 
 type EvidenceMonitor struct {
-	A        *Alarms
-	Hist     *SetHistory
-	Reported map[evIdent]*evSeen
-	inBlock  map[uint64]map[string]bool // height -> evidence hashes seen in that block (first node)
+	A         *Alarms
+	Hist      *SetHistory
+	Reported  map[evIdent]*evSeen
+	inBlock   map[uint64]map[string]bool // height -> evidence hashes seen in that block (first node)
 	BlockTime map[uint64]time.Time
 }
 
